@@ -438,7 +438,7 @@ fn main() {
     ck.assume("an offset equal to len(input) counts as a char boundary of the input");
     ck.assume("encode-offsets trusts the normalizer's own offset map (checked by offset-map) and the pre-tokenizer's pieces; the expected token offset is map[start of the token's piece in the normalized text]");
     ck.set_threads(16);
-    ck.prop("offset-map", ck.pick(150_000, 10_000_000), case, oracle);
-    ck.prop("encode-offsets", ck.pick(40_000, 2_000_000), ecase, eoracle);
+    ck.prop("offset-map", ck.pick(150_000, 3_000_000), case, oracle);
+    ck.prop("encode-offsets", ck.pick(40_000, 600_000), ecase, eoracle);
     ck.finish();
 }
